@@ -211,7 +211,9 @@ macro_rules
       | apply good_bind
       | intro _
       | split
-      | (show Good _; dsimp only)))
+      | (show Good _; dsimp only)
+      | (injections; subst_vars; good_leaf)
+      | (exfalso; omega)))
 
 theorem good1_parseIdent (env : Env) : Good1 (parseIdent env) := ⟨fun s => by
   unfold parseIdent
@@ -644,101 +646,5 @@ theorem core_good (env : Env) : ∀ n e t b, e + t + b = n → CoreGood env e t 
     apply core_step
     intro e' t' b' hlt
     exact ih (e' + t' + b') (by omega) e' t' b' rfl
-
-end WuffsVerif.Parse
-
-namespace WuffsVerif.Parse
-open WuffsVerif.Token WuffsVerif.Gen.C11
-
-/-! ## statements -/
-
-attribute [local irreducible] checkAssignLHS terminatesList typeInnermost stripArrays
-  asSmallPositiveInt256 isChooseCPUArch validConstName containsDoubleUnderscore isStatusMessageTok
-
-macro_rules | `(tactic| good_leaf) => `(tactic| exact (by assumption : ∀ dc, Good (pBlock _ _ _ _ dc)) _)
-macro_rules | `(tactic| good_leaf) => `(tactic| exact (by assumption : ∀ l a, Good (pIterateBlock _ _ _ _ l a)) _ _)
-
-theorem good_loopsPush (label : Nat) : Good (loopsPush label) := by
-  unfold loopsPush; good_auto
-
-theorem good_loopsPop : Good loopsPop := by
-  unfold loopsPop; good_auto
-
-theorem good_parseJump (env : Env) (x : Nat) : Good (parseJump env x) := by
-  unfold parseJump; good_auto
-
-theorem good_parseAssignNode (env : Env) (pe : P Node) (hpe : Good pe) :
-    Good (parseAssignNode env pe) := by
-  unfold parseAssignNode; good_auto
-
-theorem good_parseIterateAssignNode (env : Env) (pe : P Node) (hpe : Good pe) :
-    Good (parseIterateAssignNode env pe) := by
-  have := good_parseAssignNode env pe hpe
-  unfold parseIterateAssignNode; good_auto
-
-theorem good_parseVarNode (env : Env) (pt : P Node) (hpt : Good pt) :
-    Good (parseVarNode env pt) := by
-  unfold parseVarNode; good_auto
-
-theorem good_parseIterateHeader (env : Env) : Good (parseIterateHeader env) := by
-  unfold parseIterateHeader; good_auto
-
-macro_rules | `(tactic| good_leaf) => `(tactic| exact good_loopsPush _)
-macro_rules | `(tactic| good_leaf) => `(tactic| exact good_loopsPop)
-macro_rules | `(tactic| good_leaf) => `(tactic| exact good_parseJump _ _)
-macro_rules | `(tactic| good_leaf) => `(tactic| apply good_parseAssignNode)
-macro_rules | `(tactic| good_leaf) => `(tactic| apply good_parseIterateAssignNode)
-macro_rules | `(tactic| good_leaf) => `(tactic| apply good_parseVarNode)
-macro_rules | `(tactic| good_leaf) => `(tactic| exact good_parseIterateHeader _)
-
-/-- The five functions of the statement cycle, at a given body-depth budget. -/
-structure StmtGood (env : Env) (e t b : Nat) : Prop where
-  block : ∀ dc, Good (pBlock env e t b dc)
-  pif : Good (pIf env e t b)
-  iterateBlock : ∀ label assigns, Good (pIterateBlock env e t b label assigns)
-  statement1 : Good (pStatement1 env e t b)
-  statement : Good (pStatement env e t b)
-
-set_option maxRecDepth 16384 in
-theorem stmt_step (env : Env) (e t b : Nat)
-    (ih : ∀ b', b' < b → StmtGood env e t b') : StmtGood env e t b := by
-  have hc := core_good env _ e t b rfl
-  have hE := hc.expr
-  have hT := hc.typeExpr
-  have hBlock : ∀ dc, Good (pBlock env e t b dc) := by
-    intro dc
-    cases b with
-    | zero => unfold pBlock; exact good1_failHere.good
-    | succ b' =>
-      have h1 := (ih b' (by omega)).statement
-      unfold pBlock
-      good_auto
-  have hIf : Good (pIf env e t b) := by
-    cases b with
-    | zero => unfold pIf; good_auto
-    | succ b' =>
-      have h1 := (ih b' (by omega)).pif
-      unfold pIf
-      good_auto
-  have hIter : ∀ label assigns, Good (pIterateBlock env e t b label assigns) := by
-    intro label assigns
-    cases b with
-    | zero => unfold pIterateBlock; good_auto
-    | succ b' =>
-      have h1 := (ih b' (by omega)).iterateBlock
-      unfold pIterateBlock
-      good_auto
-  have hS1 : Good (pStatement1 env e t b) := by
-    unfold pStatement1
-    good_auto
-  have hS : Good (pStatement env e t b) := by
-    unfold pStatement
-    good_auto
-  exact ⟨hBlock, hIf, hIter, hS1, hS⟩
-
-theorem stmt_good (env : Env) (e t : Nat) : ∀ b, StmtGood env e t b := by
-  intro b
-  induction b using Nat.strongRecOn with
-  | _ b ih => exact stmt_step env e t b ih
 
 end WuffsVerif.Parse
